@@ -210,6 +210,8 @@ type HarnessRun struct {
 	stepLimit     int64
 	maxPaths      int
 	noIfConv      bool
+	noSymRef      bool
+	assumeProven  bool
 	timeoutMS     int
 	workers       int
 	panicIsViolation bool
@@ -316,7 +318,7 @@ func (e *Engine) Explore(h *HarnessRun) {
 	var witness []InputRec
 
 	worker := func() {
-		solver := NewSolver("z3", h.timeoutMS)
+		solver := NewSolver(envOr("SYMGO_SOLVER", "z3-new"), h.timeoutMS)
 		defer solver.Close()
 		m := &Machine{eng: e, tt: NewTermTable(), solver: solver, mode: h.Mode, h: h}
 		m.funcsSeen = map[*ssa.Function]bool{}
